@@ -24,7 +24,8 @@ CLAIMS.update({
     "C03": dict(level="model_checking", engine="gosym", technique=E1_TECH, design_ref="DESIGN.md §5 C03",
         text="Decoder kernels on arbitrary bytes: for every buffer of 0..11 symbolic bytes each LEB128 decoder returns a value or an error (no Go run-time panic), "
              "accepts exactly the encodings that terminate within 5/10 bytes and fit the width (unsigned) / returns the sign-extended payload with bounded bytesRead (signed), "
-             "and Load(Encode(v)) == v for every 32/64-bit v. Whole-module decoding and function-body validation are outside this claim (see evidence bounds)."),
+             "and Load(Encode(v)) == v for every 32/64-bit v. Validator family: a multi-value `if` without `else` typed (p)->(r) for every p, r in {i32,i64,f32,f64} is accepted iff p == r, and accepted modules run on the interpreter without internal failure and return the specified value. "
+             "Whole-module decoding on arbitrary bytes and the rest of function-body validation are outside this claim (see evidence bounds)."),
     "C16": dict(level="model_checking", engine="gosym", technique=E1_TECH, design_ref="DESIGN.md §5 C16",
         text="One-step induction against ghost reference models: from an arbitrary descriptor table state (0..2 symbolic mask words, symbolic items) Insert returns the lowest free key, "
              "InsertAt/Delete/Lookup act as a map for every int32 key and leave all other keys unchanged. OS file semantics are outside the claim."),
@@ -39,7 +40,9 @@ CLAIMS.update({
              "and every entry point after store close returns an error (no Go panic). Interleavings of goroutines inside one operation are outside this claim (operations are atomic under Store.mux)."),
     "C12": dict(level="model_checking", engine="gosym", technique=E1_TECH, design_ref="DESIGN.md §5 C12",
         text="For every declared (min, optional max) and every configured limit <= 65536, newMemorySizer+Memory.Validate accept or reject identically with memoryCapacityFromMax on or off, with equal min/max and min <= cap <= max <= limit. "
-             "Caches, listeners and allocators are not yet covered by this check (see evidence)."),
+             "Cache-key soundness at the front end: the decode-time options outside the module identity (capacity-from-max, DWARF, custom sections; 2^3 settings) x 6 program shapes that access memory around memory.grow "
+             "(direct, in a callee, in an if arm, in a loop): the SSA compiled under each setting is evaluated in the most general instance (memory base moves at every grow) and agrees with the interpreter for all arguments, sizes 0..8 pages and contents - "
+             "so an entry compiled under one setting is valid under any other. File-cache serialisation, listeners x cache, and custom allocators are outside this claim."),
     "C19": dict(level="model_checking", engine="gosym", technique=E1_TECH, design_ref="DESIGN.md §5 C19",
         text="From a module configuration built by 0..3 WithEnv calls (real append capacities via a model of runtime.growslice), two sibling derivations and one grandchild derivation by arbitrary With... calls "
              "(symbolic strings, keys colliding or not) leave parent and earlier child deeply unchanged (backing arrays compared); same for FSConfig mounts (slices, map, preopens copies) and every RuntimeConfig With.... "
@@ -47,16 +50,18 @@ CLAIMS.update({
     "C02": dict(level="model_checking", engine="gosym", technique=E1_TECH, design_ref="DESIGN.md §5 C02",
         text="Interpreter side, through the real decode/validate/compile/instantiate/call pipeline: each of the 23 scalar load/store instructions, for all 2^32 base addresses, all 2^32 static offsets "
              "(patched symbolically into the lowered operation), all memory sizes 0..65536 pages (symbolic 64-bit length) and contents, traps with out-of-bounds iff base+offset+width > size, leaves memory unchanged on trap "
-             "and otherwise touches exactly [ea, ea+width); memory.copy/init for all operands, memory.fill for lengths 0..9. The compiler (wazevo) side is not yet covered by this check; SIMD and atomic accesses are outside the claim."),
+             "and otherwise touches exactly [ea, ea+width); memory.copy/init for all operands, memory.fill for lengths 0..9. SIMD and atomic accesses are outside the claim."),
     "C05": dict(level="model_checking", engine="gosym", technique=E1_TECH, design_ref="DESIGN.md §5 C05",
         text="Interpreter side, through the real pipeline (binary -> DecodeModule -> Validate -> interpreter compiler -> callNativeFunc): every scalar integer instruction (i32/i64 arithmetic, bit, shift/rotate, comparison, "
              "clz/ctz/popcnt, extensions, wrap, reinterpret), every f32/f64 binary instruction incl. min/max/copysign and comparisons, abs/neg/ceil/floor/trunc/sqrt, all 16 trapping and saturating float-to-int truncations "
              "and all int-to-float conversions, demote and promote equal the specification for ALL operand values (floats via the SMT floating-point theory; any arithmetic NaN accepted where the specification yields NaN). "
-             "f32/f64.nearest, v128 instructions and the compiler side are outside this claim."),
+             "Machine level (L2): the integer instructions with operands from parameters (71 programs) and with a constant operand (immediates, strength reduction) are compiled by the real wazevo front end and amd64 back end "
+             "and the reference evaluator of the final machine instructions is compared with the interpreter for all operand values. f32/f64.nearest, v128 instructions, floating point at machine level, the byte encoder and arm64 are outside this claim."),
     "C08": dict(level="model_checking", engine="gosym", technique=E1_TECH, design_ref="DESIGN.md §5 C08",
         text="Interpreter side: for every stack-based host function signature of 0..3 params and 0..2 results over {i32,i64,f32,f64} and all values, the host receives exactly the guest's values and guest and Go caller "
              "(Call and CallWithStack) receive exactly the host's results; reflection-defined host functions (a model of the reflect calls callGoFunc makes) for four representative signatures; api Encode/Decode round trips. "
-             "wazevo's entry preambles and Go-call trampolines are outside this claim."),
+             "Machine level: the real amd64 CompileGoFunctionTrampoline for 6 signatures with register- and stack-passed parameters of every type is evaluated by the machine-instruction evaluator: at the exit to Go the host's stack holds exactly "
+             "the guest's arguments in order, and the trampoline returns exactly the host's results. wazevo's entry preamble and the arm64 trampolines are outside this claim."),
     "C06": dict(level="model_checking", engine="gosym", technique=E1_TECH, design_ref="DESIGN.md §5 C06",
         text="Interpreter side, real pipeline: a guest function that first writes memory and a global and then fails in one of 8 ways (unreachable, integer divide by zero, out-of-bounds load, unbounded recursion to the "
              "call-stack ceiling, host panic with sys.ExitError of any code, host panic with an error, with a string, Go run-time error inside the host function), directly or nested guest->host->guest, for all argument values: "
@@ -66,11 +71,13 @@ CLAIMS.update({
         text="Interpreter side, compiled with close-on-context-done: for 10 cycle shapes (loop br / br_if / br_table, nested loops, self and mutual recursion, return_call self and mutual, call_indirect and "
              "return_call_indirect cycles) with every branch condition symbolic, a module closed before the cycle ends the call with the exit error for its cause within a step budget (exceeding the budget is the violation, replayed "
              "natively as a hang); a close arriving from a host callback at round 0..2 stops the guest at the next check; a call with an already-done context returns the matching exit code and closes the module. "
-             "The watcher goroutine is not scheduled in the model (its effect is applied explicitly); wall-clock promptness and the compiler side are outside this claim."),
+             "The watcher goroutine is not scheduled in the model (its effect is applied explicitly); Compiler front end: for each cycle shape (incl. tail calls; with and without imported functions) the optimised SSA compiled with close-on-context-done leaves through the exit-code check within the step bound once the module is closed, "
+             "for all branch conditions. Wall-clock promptness, the watcher goroutine and the native call engine are outside this claim."),
     "C20": dict(level="model_checking", engine="gosym", technique=E1_TECH, design_ref="DESIGN.md §5 C20",
         text="Interpreter side: guest f -> guest g -> host h with recording listeners, all parameter/result values and the trap decision symbolic: the event log is well nested with exactly one before and one after/abort per call, "
              "carries the actual parameters and results, the stack iterator lists the real chain callee-outward at every before-event, results equal the listener-free run; recursion to every depth 0..39 followed by a trap "
-             "gives every frame its abort. wazevo's listener trampolines and native stack iterator are outside this claim."),
+             "gives every frame its abort. Compiler front end: with listeners compiled in, the optimised SSA of f -> g (g leaving through 8 kinds of exit incl. br_table and early returns) emits exactly the before/after events of the interpreter, for all parameter values. "
+             "wazevo's listener trampolines (machine code) and native stack iterator are outside this claim."),
     "C15": dict(level="model_checking", engine="gosym", technique=E1_TECH, design_ref="DESIGN.md §5 C15",
         text="Each of the 46 exported WASI functions is run with arbitrary argument words on a real store-registered instance whose memory is arbitrary (0..65536 pages, symbolic contents) over a file system stub "
              "that answers arbitrarily within the sys.FS/File contract: a Go run-time panic (index, slice, nil, map, conversion) on any path is a violation, the result is an errno or proc_exit's exit error, "
@@ -86,22 +93,27 @@ CLAIMS.update({
              "exporter/importer memory limits and global types/mutabilities is accepted exactly per the import-matching relation, and afterwards stores, memory.grow and global.set through one instance are observed through the other "
              "(all addresses/values symbolic). Table and function imports, failed-instantiation rollback (see C10) and the compiler side are outside this claim."),
     "C11": dict(level="model_checking", engine="gosym", technique=E1_TECH, design_ref="DESIGN.md §5 C11",
-        text="Two instances of one compiled module (active data segment, mutable global, table with an element) through the real pipeline on the interpreter: after one arbitrary mutating call on the first "
-             "(store / global.set / memory.grow / memory.fill / table.set with symbolic operands), the second instance's memory at a symbolic address, global, memory size and table element are exactly as freshly instantiated. "
+        text="Two instances of ONE compiled module (the same wasm.Module and compiled code; active and passive data segments, mutable global, table with an element) through the real pipeline on the interpreter, the second created before or after "
+             "one arbitrary mutating operation on the first (store / global.set / memory.grow / memory.fill / table.set / data.drop / memory.init+data.drop with symbolic operands): the second instance's memory at a symbolic address, global, "
+             "memory size, table element and passive segment (memory.init succeeds and copies it) are exactly as freshly instantiated. "
              "File descriptors/stdio isolation and the compiler side are outside this claim."),
     "C01": dict(level="translation_validation", engine="gosym", design_ref="DESIGN.md §3, §5 C01",
         technique="translation validation by symbolic execution: the real front end + SSA passes compile each generated program, a reference evaluator of the emitted SSA and the real interpreter run on the same symbolic inputs, z3 decides equality",
-        text="For each program of a generated family (T1: 71 one-instruction integer/conversion/select programs; T3: 9 control-flow, loop, globals, multi-value call and trap-after-effect programs) the binary is compiled by the real "
+        text="For each program of a generated family (T1: 71 one-instruction integer/conversion/select programs; T1c: constant-operand programs; T3: 14 control-flow programs - if/else, br_if, br_table, loops with loop-carried values that are shifted, swapped and rotated on the back edge, globals, multi-value call, trap-after-effect) the binary is compiled by the real "
              "wazevo front end and optimisation passes and lowered by the real interpreter compiler; a reference evaluator of the optimised SSA and the real interpreter are then executed symbolically on the same arbitrary arguments, "
              "memory (0..65536 pages) and globals, and the solver decides that outcome kind, every result bit, final globals and final memory are equal for ALL input values. Program shape is enumerated, values are symbolic. "
-             "The machine-code back end (instruction selection, register allocation, encoding), SIMD, atomics, tables and multi-call histories are outside this claim.",
-        note="Trusted: the reference SSA evaluator (harness/internal/engine/wazevo/frontend/ssaeval.go: the meaning given to each SSA opcode and to the module/execution context layout), gosym, z3. "
+             "Machine level (L2): the same families are compiled further by the real amd64 back end (instruction selection, register allocation, prologue/epilogue, block-argument moves, jump tables) and a reference evaluator of the "
+             "final machine instruction list (post-regalloc `instruction` structs, before byte encoding) is compared with the interpreter in the same way. "
+             "The byte encoder (instr_encoding.go), the arm64 back end, the native call engine (entry preamble, stack growth, unwinding), SIMD, atomics, tables and multi-call histories are outside this claim.",
+        note="Trusted: the reference SSA evaluator (harness/internal/engine/wazevo/frontend/ssaeval.go: the meaning given to each SSA opcode and to the module/execution context layout), the reference evaluator of amd64 machine "
+             "instructions (harness/internal/engine/wazevo/backend/isa/amd64/l2eval.go: the meaning given to each instruction kind, flags, stack and ABI), gosym, z3. "
              "A construct the evaluator does not model makes the check fail as unsupported, never pass."),
 })
 CLAIMS["C02"]["text"] += (" Compiler front end (L1): the optimised wazevo SSA of 23 load/store kinds x boundary static offsets and of 8 reuse shapes on the same base value "
     "(two accesses, narrow-then-wide, across a call that may grow the memory, across memory.grow, store-then-load, across an if/else join, constant base bound to a local, memory.size/grow) is evaluated by a reference SSA evaluator in which "
     "every dereference is an obligation (inside [0,size) of the CURRENT memory epoch - a call or grow moves the memory - or the module/execution context) and compared with the interpreter for all bases, sizes 0..65536 pages and contents. "
-    "The machine-code back end is outside the claim.")
+    "Machine level (L2): the same single-access and reuse families compiled by the real amd64 back end; the reference evaluator of the final machine instructions makes every dereference (address modes with folded constants and "
+    "extended index registers included) an obligation and compares with the interpreter. The byte encoder, arm64, SIMD and atomic accesses are outside the claim.")
 CLAIMS["C14"]["text"] += " Compiler front end: memory.size / memory.grow / memory.size compiled to SSA agrees with the interpreter for every size and delta (known finding at 65536 pages)."
 
 NOT_APPLICABLE = {
